@@ -567,6 +567,23 @@ func TestEventPairs(t *testing.T) {
 			}
 		}
 	}
+	// two operations on the same file: a non-destructive one first, then every kind
+	for _, first := range []string{"write", "chmod"} {
+		for _, second := range []string{"write", "chmod", "remove", "rename"} {
+			for _, a := range observed {
+				k++
+				if k%nsh != idx {
+					continue
+				}
+				c := EvCase{Ops: []Op{{first, a}, {second, a}}}
+				dir := filepath.Join(root, fmt.Sprint("p", k))
+				drv.Eval("same-file-pair=" + first + "+" + second)
+				drv.NonTrivial(c.canon())
+				decideEvents(t, c, dir)
+				os.RemoveAll(dir)
+			}
+		}
+	}
 	drv.SetExhaustive()
 }
 
